@@ -328,6 +328,14 @@ impl Vm {
     let fiber = self.create_fiber(script, None);
     self.fiber = fiber;
     self.main_fiber = fiber;
+    #[cfg(feature = "verif")]
+    if laythe_core::verif::wants(laythe_core::verif::SCHED) {
+      let id = laythe_core::verif::fresh(laythe_core::verif::K_FIBER, fiber.to_usize());
+      laythe_core::verif::emit(
+        laythe_core::verif::SCHED,
+        format!("{{\"ev\":\"main\",\"f\":{id}}}"),
+      );
+    }
     self.fiber.activate();
     self.load_ip();
 
@@ -439,6 +447,8 @@ impl Vm {
           ExecutionSignal::ContextSwitch => match self.fiber_queue.pop_front() {
             Some(fiber) => self.context_switch(fiber),
             None => {
+              #[cfg(feature = "verif")]
+              self.verif_sched_event("deadlock", 0);
               let mut stdio = self.io().stdio();
               let stderr = stdio.stderr();
               writeln!(stderr, "Fatal error deadlock.").expect("Unable to write to stderr");
